@@ -110,6 +110,7 @@ type World struct {
 	Pending    *In // input being processed by the real code right now (hang detection)
 	PendingM   int
 	enteredAt  int64
+	sealed     bool
 }
 
 func NewWorld(sc *Scenario) *World {
@@ -216,7 +217,18 @@ func (w *World) Do(m int, in In) []Act {
 	// --- record what the validator has been given ---
 	recVote := func(x In, pc bool) {
 		if x.H >= v.height {
-			v.votes[voteKey{pc, x.H, x.R, x.Sender, x.Nil, x.Value}] = true
+			k := voteKey{pc, x.H, x.R, x.Sender, x.Nil, x.Value}
+			if v.votes[k] {
+				w.hit("duplicate-vote-delivered")
+			} else {
+				for o := range v.votes {
+					if o.pc == pc && o.h == x.H && o.r == x.R && o.sender == x.Sender {
+						w.hit("equivocating-vote-delivered(same sender, other id)")
+						break
+					}
+				}
+			}
+			v.votes[k] = true
 		}
 		if x.H > v.height {
 			w.hit("future-height-vote-delivered")
@@ -299,6 +311,7 @@ func (w *World) Do(m int, in In) []Act {
 			}
 			if a.Sender != v.node || a.H != v.height {
 				w.violate("vote-with-wrong-header", fmt.Sprintf("node %d at height %d broadcast %s", v.node, v.height, a.Str))
+				break
 			}
 			sk := slotKey{pc, a.H, a.R}
 			for _, prev := range v.emitted[sk] {
@@ -400,7 +413,9 @@ func (w *World) checkPrevote(v *view, a Act) {
 
 func (w *World) checkCommit(v *view, a Act) {
 	if a.H != v.height {
+		// everything below is about "the decision of height a.H": meaningless for this commit
 		w.violate("commit-at-wrong-height", fmt.Sprintf("node %d at height %d committed %s", v.node, v.height, a.Str))
+		return
 	}
 	if !w.sc.Cfg.valid(a.Value) {
 		w.violate("commit-of-invalid-value", fmt.Sprintf("node %d committed %s which the application rejects", v.node, a.Str))
@@ -440,6 +455,20 @@ func sortedKeys(m map[string]int) []string {
 	}
 	sort.Strings(ks)
 	return ks
+}
+
+// Seal appends, once, a final comparison of every machine's Height() with the model's.
+func (w *World) Seal() {
+	if w.sealed {
+		return
+	}
+	w.sealed = true
+	for i, sm := range w.sms {
+		h := uint64(0)
+		_, _, _ = lib.Try(func() error { h = uint64(sm.Height()); return nil })
+		w.Lines = append(w.Lines, fmt.Sprintf("height %d", i))
+		w.Outs = append(w.Outs, fmt.Sprint(h))
+	}
 }
 
 // Replay runs all events of a scenario on fresh machines.
